@@ -106,4 +106,27 @@ def reduceClasses (classes : List Cls) : Option (List Cls) :=
           attrs := attrs.map (fun a => { a with types := filterTypes a.types })
           mixed := kv.2.any (·.mixed) }
 
+/-! ### what "the merged model admits this occurrence" means at the level of attrs -/
+
+/-- an occurrence's attr fits the merged attr: the merged bounds contain its own -/
+def Attr.within (a m : Attr) : Bool := m.min ≤ a.min && a.max ≤ m.max
+
+/-- the merged attrs admit one occurrence: every attr of the occurrence is present with
+wider bounds, and whatever the occurrence lacks is optional -/
+def admitsAttrs (merged occ : List Attr) : Bool :=
+  occ.all (fun a => match merged.find? (fun m => m.same a) with
+    | some m => a.within m
+    | none => false)
+  && merged.all (fun m => occ.any (fun a => a.same m) || m.min = 0)
+
+/-- the reduced classes admit one mapped class -/
+def admits (merged : List Cls) (occ : Cls) : Bool :=
+  match merged.find? (fun m => m.qname = occ.qname) with
+  | some m => admitsAttrs m.attrs occ.attrs
+  | none => false
+
+/-- every mapped class is admitted by the reduction of all of them (`none` = the reduction crashed) -/
+def allAdmitted (classes : List Cls) : Option Bool :=
+  (reduceClasses classes).map fun merged => classes.all (admits merged)
+
 end Xs.Samples
